@@ -182,6 +182,40 @@ Definition do_sstart (c : scfg) (s : sstate) (mgr_ok : bool) : option (sstate * 
 Definition loop_running (s : sstate) : bool :=
   match s_loop s with STop _ | SCalling _ _ | SCreating _ => true | _ => false end.
 
+(* ---------- the pace of the acquisition loop ----------
+   Between two iterations the loop sleeps rand.Intn(MaxInterval) milliseconds: at most MaxInterval - 1.  [STop since]
+   says that the loop went to sleep at [since] at the latest.  When it wakes it asks for a partition if it counts
+   fewer than wanted and one it does not count exists ([pollable]); back at the top it serves a stop request or
+   (v2) a re-provisioning request.  While one of these is due ([must_act]) time cannot pass [since + pace_bound]
+   without the loop acting; while none is, the loop may wake and go back to sleep at any instant. *)
+Definition pace_bound (c : scfg) : Z := (eff_maxint c - 1) * 1000000.
+
+Definition pollable (s : sstate) : bool :=
+  (held s <? s_target s) && existsb (fun e => match e with None => true | Some _ => false end) (s_parts s).
+
+Definition must_act (s : sstate) : bool := pollable s || s_stop_req s || s_prov_req s.
+
+Definition pace_ok (c : scfg) (s : sstate) (t : Z) : bool :=
+  match s_loop s with
+  | STop since => negb (must_act s) || (t <=? since + pace_bound c)
+  | _ => true
+  end.
+
+(* the loop's state after time has passed to t: with nothing due it may have woken and gone back to sleep just now *)
+Definition rest_loop (s : sstate) (t : Z) : sloop :=
+  match s_loop s with
+  | STop since => if must_act s then STop since else STop t
+  | l => l
+  end.
+
+(* an obligation that vanishes without the loop having acted (the demand was withdrawn): the loop may wake at this very
+   instant, find nothing to do and go back to sleep.  [s] is the state before the change, [s1] after it. *)
+Definition relax_loop (s s1 : sstate) : sloop :=
+  match s_loop s with
+  | STop since => if must_act s1 then STop since else STop (s_now s)
+  | l => l
+  end.
+
 Definition do_sstop (c : scfg) (s : sstate) : option (sstate * list sobs) :=
   match sc_gen c with
   | V2 => Some (s <| s_stop_req := true |>, [])
@@ -194,7 +228,8 @@ Definition do_sstop (c : scfg) (s : sstate) : option (sstate * list sobs) :=
   end.
 
 Definition do_giveme (s : sstate) (v : Z) : option (sstate * list sobs) :=
-  Some (s <| s_target := wanted s v |>, [SOEvTarget (Z.max 0 (v - s_reserved s))]).
+  let s1 := s <| s_target := wanted s v |> in
+  Some (s1 <| s_loop := relax_loop s s1 |>, [SOEvTarget (Z.max 0 (v - s_reserved s))]).
 
 Definition do_set_reserved (c : scfg) (s : sstate) (v : Z) : option (sstate * list sobs) :=
   match sc_gen c with
@@ -325,7 +360,8 @@ Definition expiries_ok (c : scfg) (s : sstate) (t : Z) : bool :=
   forallb (fun x => (t <=? snd x) || (match sc_gen c with V2 => s_stop_req s | V1 => false end)) (s_timers s).
 
 Definition do_stime (c : scfg) (s : sstate) (t : Z) : option (sstate * list sobs) :=
-  if (s_now s <=? t) && expiries_ok c s t then Some (s <| s_now := t |>, []) else None.
+  if (s_now s <=? t) && expiries_ok c s t && pace_ok c s t
+  then Some (s <| s_now := t |> <| s_loop := rest_loop s t |>, []) else None.
 
 Definition sstep (c : scfg) (s : sstate) (l : slabel) : option (sstate * list sobs) :=
   match l with
